@@ -284,7 +284,7 @@ func runDepHistory(rng *rand.Rand) ([]porcupine.Operation, map[string][]string) 
 
 func checkC15(c *Ctx) error {
 	r := c.R
-	r.Rule = "(a) projects generated from digraphs: ALL 512 digraphs on 3 non-entry modules (self-loops included) plus sampled digraphs on 4-6 modules with repeated/aliased imports, each module exporting V() = id + sum of its imports' V(); type-checked by hook-perturbed in-process workers (distinct VERIF_SCHED per worker) and, for every DAG and a share of the cyclic ones, compiled by the ferret-verif CLI under further (GOMAXPROCS, VERIF_SCHED) schedules, built natively and run; cyclic => exit 1 with 'circular import detected', acyclic => accepted and prints the oracle's numbers; (b) VERIF_EVENTS log: exactly one parse.start per module, every parse.adddep after that module's parse.lexed; (c) 4 goroutines x 2-3 concurrent AddDependency calls on 4-5 nodes recorded at the client boundary and checked for linearizability by porcupine against 'reject iff imported reaches importer, else insert'. non-trivial = a distinct graph/history whose verdict was decided"
+	r.Rule = "(a) projects generated from digraphs: ALL 512 digraphs on 3 non-entry modules (self-loops included) plus sampled digraphs on 4-6 modules with repeated/aliased imports, plus a cycle stress (2- and 3-cycles among sibling modules that also import a hub of 0 / 6 / 24 shared modules, each repeated 10x quick / 60x thorough), each module exporting V() = id + sum of its imports' V(); type-checked by hook-perturbed in-process workers (distinct VERIF_SCHED per worker) and, for every DAG and a share of the cyclic ones, compiled by the ferret-verif CLI under further (GOMAXPROCS, VERIF_SCHED) schedules, built natively and run; cyclic => exit 1 with 'circular import detected', acyclic => accepted and prints the oracle's numbers; (b) VERIF_EVENTS log: exactly one parse.start per module, every parse.adddep after that module's parse.lexed; (c) 4 goroutines x 2-3 concurrent AddDependency calls on 4-5 nodes recorded at the client boundary and checked for linearizability by porcupine against 'reject iff imported reaches importer, else insert'. non-trivial = a distinct graph/history whose verdict was decided"
 	r.Assumptions = []string{"a porcupine timeout is inconclusive", "logical clock for call/return stamps is one atomic counter"}
 	r.Exhaustive = false
 	libs, err := c.Env.Libs()
@@ -300,6 +300,29 @@ func checkC15(c *Ctx) error {
 	for i := 0; i < nExtra; i++ {
 		graphs = append(graphs, randGraph(core.CaseRng(c.Env.Seed, "C15-graph", i)))
 	}
+	// cycle stress: cycles among sibling modules (all imported by main, so their parsers start
+	// together), each member also importing a hub of already-parsed modules, repeated many times:
+	// a cycle check that is not atomic with the edge insertion only fails in narrow interleavings
+	nBase := len(graphs)
+	for _, hub := range []int{0, 6, 24} {
+		for _, clen := range []int{2, 3} {
+			g := c15Graph{n: clen + hub, edges: make([][]int, clen+hub)}
+			for k := 0; k < clen; k++ {
+				g.edges[k] = append(g.edges[k], (k+1)%clen)
+				for h := 0; h < hub; h++ {
+					g.edges[k] = append(g.edges[k], clen+h)
+				}
+			}
+			for h := 0; h < hub; h++ {
+				for h2 := h + 1; h2 < hub && h2 <= h+3; h2++ {
+					g.edges[clen+h] = append(g.edges[clen+h], clen+h2)
+				}
+			}
+			for rep := 0; rep < c.N(10, 60); rep++ {
+				graphs = append(graphs, g)
+			}
+		}
+	}
 	// (a1) all graphs through the perturbed pool
 	jobs := make([]core.Job, len(graphs))
 	dirs := make([]string, len(graphs))
@@ -309,7 +332,12 @@ func checkC15(c *Ctx) error {
 		for rel, content := range g.files() {
 			core.WriteFile(filepath.Join(d, rel), strings.ReplaceAll(content, "{{PROJ}}", filepath.Base(d)))
 		}
-		jobs[i] = core.Job{ID: fmt.Sprintf("graph:%s", g.key()), Entry: filepath.Join(d, "main.fer"), Target: "typecheck"}
+		id := fmt.Sprintf("graph:%s", g.key())
+		if i >= nBase {
+			id = fmt.Sprintf("cycle-stress:%d-cycle+hub%d#%d", len(g.edges[0])-(g.n-len(g.edges[0])-1)*0, g.n, i-nBase)
+			id = fmt.Sprintf("cycle-stress:n%d#%d", g.n, i-nBase)
+		}
+		jobs[i] = core.Job{ID: id, Entry: filepath.Join(d, "main.fer"), Target: "typecheck"}
 	}
 	pool := &core.Pool{Libs: libs, LogDir: filepath.Join(c.Env.Work, "pool-c15"), WorkerEnv: func(idx int) []string {
 		return []string{fmt.Sprintf("VERIF_SCHED=%d", int(c.Env.Seed)*131+idx*7+1), "GOMAXPROCS=" + []string{"1", "2", "4", "8"}[idx%4]}
@@ -352,13 +380,26 @@ func checkC15(c *Ctx) error {
 		}
 		sig, det := judge(g, res, "pool")
 		if sig != "" {
+			// confirm with the real CLI; the failure may depend on the schedule, so several
+			// (GOMAXPROCS, VERIF_SCHED) combinations of the hook-enabled binary are tried
 			cli, _ := c.ConfirmCLI(dirs[i])
-			if s2, _ := judge(g, cli, "cli"); s2 == "" {
-				r.Inconclusive("in-process and CLI verdicts differ for " + jobs[i].ID)
+			s2, _ := judge(g, cli, "cli")
+			how := "plain ferret"
+			for t := 0; s2 == "" && t < 40; t++ {
+				env := []string{"GOMAXPROCS=" + []string{"1", "2", "4", "8", "16"}[t%5], fmt.Sprintf("VERIF_SCHED=%d", 7000+t*13+i)}
+				cr := core.Compile(core.CompileOpts{Binary: verif, Libs: libs, Target: core.TypeCheck, Env: env, CPUSecs: 60}, filepath.Join(dirs[i], "main.fer"))
+				s2, _ = judge(g, cr, "cli")
+				how = fmt.Sprintf("ferret-verif %v (attempt %d)", env, t+1)
+			}
+			if s2 == "" {
+				r.Inconclusive("seen in the in-process pool but not reproduced by 41 CLI runs: " + sig + " for " + jobs[i].ID)
 			} else {
-				r.Fail(core.Failure{Case: jobs[i].ID, Signature: s2, Detail: fmt.Sprintf("%s\ngraph %s cyclic=%v", det, g.key(), g.cyclic()), Replay: g.files()})
+				r.Fail(core.Failure{Case: jobs[i].ID, Signature: s2, Detail: fmt.Sprintf("%s\nconfirmed with %s\ngraph %s cyclic=%v", det, how, g.key(), g.cyclic()), Replay: g.files()})
 			}
 			continue
+		}
+		if i >= nBase {
+			r.Count("cycle_stress_runs_rejected_with_circular_import_error", 1)
 		}
 		r.Nontrivial(jobs[i].ID)
 		if g.cyclic() {
